@@ -78,7 +78,7 @@ def workload(tier, seed, scale=1.0):
         for trail in (0, 1, 2, 3):
             for fam in ('rand', 'zeros', 'max'):
                 ws = [{'rand': rnd.getrandbits(32), 'zeros': 0, 'max': 0xffffffff}[fam] for _ in range(nw)] + [0] * trail
-                for ks in (('U', 'I-') if quick else ('U', 'I+', 'I-', 'I0')):
+                for ks in ('U', 'I+', 'I-', 'I0'):
                     cmds.append(cmd_new(ws, ks, cell=('new', ks, nw, trail, fam)))
     # iterators: exhaustive call sequences
     depth = 5 if quick else 6
